@@ -423,10 +423,17 @@ let handle_comp (toks : string list) : string =
         | IFuel s -> show "fuel" s | IBadState -> "END:badstate|o=|e="))
   | _ -> "bad:args"
 
+(* a per-case time limit: programs whose values double in size with every round of a loop cannot be evaluated to the step
+   budget by anything; the answer "timeout" makes the checks skip the case (HV_CASE_TIMEOUT seconds, default 30) *)
+exception Case_timeout
+let case_limit = try int_of_string (Sys.getenv "HV_CASE_TIMEOUT") with _ -> 30
+let () = Sys.set_signal Sys.sigalrm (Sys.Signal_handle (fun _ -> raise Case_timeout))
+
 let () =
   try
     while true do
       let line = input_line stdin in
+      ignore (Unix.alarm case_limit);
       let toks = List.filter (fun s -> s <> "") (String.split_on_char ' ' line) in
       let out =
         try
@@ -459,7 +466,8 @@ let () =
           | ("opt" | "optpin" as w) :: "state" :: rest -> handle_opt_state w rest
           | "spec" :: "run" :: rest -> handle_spec_run rest
           | _ -> "bad:layer"
-        with Bad m -> "bad:" ^ m | Stack_overflow -> "bad:stack" in
+        with Bad m -> "bad:" ^ m | Stack_overflow -> "bad:stack" | Case_timeout -> "timeout" in
+      ignore (Unix.alarm 0);
       print_string out; print_newline ()
     done
   with End_of_file -> ()
